@@ -146,4 +146,24 @@ def check_C15(tier, seed):
                         model=MODEL["C15"], widen_fn=lambda: gen.refs_scenarios(gen.ALL_SHAPES, 6))
 
 
-CHECKS = {"C05": check_C05, "C06": check_C06, "C07": check_C07, "C10": check_C10, "C15": check_C15, "C17": check_C17, "C12": check_C12, "C09": check_C09, "C04": check_C04, "C01": check_C01, "C02": check_C02, "C03": check_C03, "C08": check_C08}
+def check_C11(tier, seed):
+    t0 = time.time()
+    z = sizes(tier)
+    build_harness("debug"); build_harness("release")
+    proof = prove("C11", ["Soa.Props.C11"])
+    L = 3 if tier == "quick" else 5
+    nested = [a for a, b in gen.TWINS]
+    twin = dict(gen.TWINS)
+    def streams(L, nr, seed):
+        scs = (gen.vec_boundary(nested, L, with_masks=True) + gen.vec_random(nested, nr, z["nops"], seed, p_invalid=0.2)
+               + gen.index_exhaustive(nested, min(L, 3)) + gen.view_scenarios(nested, L, 3, seed, 40) + gen.iter_scenarios(nested, L)
+               + gen.sort_scenarios(nested, L, seed, 8) + gen.ptr_scenarios(nested, L) + gen.refs_scenarios(nested, L)
+               + gen.trait_access(nested, min(L, 3)) + gen.cap_scenarios(nested, nr // 4, z["nops"], seed))
+        return [(s, Scenario(twin[s.shape], s.lines, s.tag)) for s in scs]
+    suites = [run_twin_diff("C11", streams(L, z["nrand"], seed), profiles=("debug", "release") if tier != "quick" else ("debug",))]
+    def widen():
+        yield run_twin_diff("C11", streams(5, 1500, seed + 3), tag="widen")
+    return finish("C11", tier, seed, t0, "proof", proof, suites, [mon_c17], widen=widen)
+
+
+CHECKS = {"C11": check_C11, "C05": check_C05, "C06": check_C06, "C07": check_C07, "C10": check_C10, "C15": check_C15, "C17": check_C17, "C12": check_C12, "C09": check_C09, "C04": check_C04, "C01": check_C01, "C02": check_C02, "C03": check_C03, "C08": check_C08}
